@@ -224,7 +224,9 @@ fn c15_array_roundtrip() {
     assert!(o.as_vec().len() == n);
     if n >= 1 { assert!(o.as_vec()[0].0 == e0.0); }
     if n >= 2 { assert!(o.as_vec()[1].0 == e1.0); }
-    o.free_recursive();
+    // the elements are immediates: releasing the array word releases everything (free_recursive - with its list of
+    // visited objects since fix d19fc0f - is under its own contract, O04.release, and costs CBMC > 20 min here)
+    o.free();
 }
 
 // ------------------------------------------------------------------------------------------
